@@ -136,3 +136,48 @@ theorem verify_sign {key : Key} (vk : ValidKey key) (k : ℕ) (hk0 : 0 < k) (hkq
   rw [this, ← hrdef, powMod_eq]
 
 end Tls.Dsa
+
+namespace Tls.Dsa
+open Nat Tls.Rsa
+
+/-- what `verify` computes, in closed form: the signing equation solved for the nonce.
+    For well-formed parameters, `(r, s)` is accepted iff both are in `(0, q)` and
+    `r = (g^k mod p) mod q` for `k = s⁻¹·(z + x·r) mod q` — i.e. iff it is the signature the key
+    would produce on this digest with that nonce. -/
+theorem verifyRS_iff {key : Key} (vk : ValidKey key) (r s : ℕ) (data : Bytes) :
+    verifyRS key r s data = true ↔
+      0 < r ∧ r < key.q ∧ 0 < s ∧ s < key.q ∧
+      r = key.g ^ (invMod s key.q * (digestOf key.q data + key.x * r) % key.q) % key.p % key.q := by
+  unfold verifyRS
+  simp only
+  generalize digestOf key.q data = z
+  by_cases hc : 0 < r ∧ r < key.q ∧ 0 < s ∧ s < key.q
+  · rw [if_pos hc]
+    simp only [beq_iff_eq, powMod_eq, vk.hy]
+    have key_eq : (key.g ^ (z * invMod s key.q % key.q) % key.p *
+          ((key.g ^ key.x % key.p) ^ (r * invMod s key.q % key.q) % key.p)) % key.p
+        = key.g ^ (invMod s key.q * (z + key.x * r) % key.q) % key.p := by
+      set w := invMod s key.q
+      have a1 : key.g ^ (z * w % key.q) % key.p ≡ key.g ^ (z * w % key.q) [MOD key.p] := Nat.mod_modEq _ _
+      have a2 : (key.g ^ key.x % key.p) ^ (r * w % key.q) % key.p ≡ key.g ^ (key.x * (r * w % key.q)) [MOD key.p] := by
+        refine (Nat.mod_modEq _ _).trans ?_
+        rw [pow_mul]
+        exact (Nat.mod_modEq _ _).pow _
+      have hprod := a1.mul a2
+      rw [← pow_add] at hprod
+      have hexp : z * w % key.q + key.x * (r * w % key.q) ≡ w * (z + key.x * r) % key.q [MOD key.q] := by
+        have h1 : z * w % key.q + key.x * (r * w % key.q) ≡ z * w + key.x * (r * w) [MOD key.q] :=
+          (Nat.mod_modEq _ _).add ((Nat.mod_modEq _ _).mul_left _)
+        have h2 : z * w + key.x * (r * w) = w * (z + key.x * r) := by ring
+        rw [h2] at h1
+        exact h1.trans (Nat.mod_modEq _ _).symm
+      exact hprod.trans (pow_modEq_of_exp_modEq vk.hg hexp)
+    rw [key_eq]
+    constructor
+    · intro h; exact ⟨hc.1, hc.2.1, hc.2.2.1, hc.2.2.2, h⟩
+    · intro h; exact h.2.2.2.2
+  · rw [if_neg hc]
+    simp only [Bool.false_eq_true, false_iff]
+    intro h; exact hc ⟨h.1, h.2.1, h.2.2.1, h.2.2.2.1⟩
+
+end Tls.Dsa
